@@ -324,6 +324,15 @@ def burst_cases():
     for tab in range(5):
         out.append(dict(base, steps=[["key", tab]] + pairs + [["paste", [tab, k]] for k in NAV]))
     out.append(dict(base, steps=[["feed", 3, 1], ["key", 2]] + pairs))
+    # more aircraft than rows, the table scrolled down, then every aircraft expires at once (also
+    # with three aircraft on a five-row terminal); and 8-20 net zoom steps in either direction on
+    # the map and the coverage tab with aircraft that have a track
+    for (rows, n_down, crowd) in ((7, 60, True), (4, 6, False), (7, 500, True)):
+        feed = [["crowd", 0]] if crowd else [["feed", 3, 1], ["feed", 3, 1]]
+        out.append(dict(base, rows=rows, expiry=True, steps=feed + [["key", 2], ["paste", [7] * min(n_down, 120)]] + ([["paste", [7] * 120]] * (n_down // 120)) + [["wait_expiry"], ["wait_expiry"], ["wait_expiry"], ["key", 7], ["key", 6], ["key", 0], ["key", 2]] + feed + [["key", 7]]))
+    for tab in (0, 1):
+        for z in (11, 12):
+            out.append(dict(base, steps=[["feed", 3, 1], ["feed", 3, 1], ["feed", 3, 1], ["key", tab]] + [["key", z]] * 9 + [["paste", [z] * 12], ["key", 1 - tab], ["key", tab], ["feed", 3, 1], ["key", 10]] + [["mouse", 3 if z == 11 else 4, 30, 15]] * 10 + [["key", 1 - tab]]))
     # a feed that never pauses (each kind), then keys, a resize and each way of quitting; and a
     # reconnected feed (--retry-tcp) that stays quiet or goes on, then the same
     for kind in range(4):
